@@ -147,6 +147,43 @@ def surrogate_edits(rng, text, k):
     return out
 
 
+def insertion_index(text, line, col):
+    """byte offset document.rs::get_insertion_index gives an LSP position (a column inside a surrogate pair addresses the
+    position behind that character; past the end of a line: the end of the line; past the last line: the end of the text)"""
+    ln = ch = 0
+    b = 0
+    n = len(text)
+    for i, c in enumerate(text):
+        if ln == line and ch >= col:
+            return b
+        if c in "\r\n" and ln == line:
+            return b
+        if c == "\n":
+            ln, ch = ln + 1, 0
+        elif c == "\r":
+            if not (i + 1 < n and text[i + 1] == "\n"):
+                ln, ch = ln + 1, 0
+        else:
+            ch += 2 if ord(c) >= 0x10000 else 1
+        b += len(c.encode("utf-8"))
+    return b
+
+
+def raw_to_byte_edits(text, raw_edits, upto=None):
+    """the (start byte, end byte, inserted text) changes the server derives from LSP-position edits, and the resulting text"""
+    out, cur = [], text
+    for e in raw_edits:
+        l1, c1, l2, c2, ins = e
+        cs, ce = insertion_index(cur, l1, c1), insertion_index(cur, l2, c2)
+        if ce < cs:
+            return None, cur
+        out.append((cs, ce, ins))
+        cur = editgen.apply_change(cur, cs, ce, ins)
+        if upto is not None and list(e) == list(upto):
+            break
+    return out, cur
+
+
 def session(exe, text, edits, seed, per_method=3, timeout=20.0, raw_edits=(), server_args=()):
     """opens text, fires all request kinds, applies the edits (each followed by requests again), shuts down.
     returns dict(ok, problem, transcript)"""
@@ -361,14 +398,20 @@ def run(ctx):
         # a silent server after an edit can be the known weakness of the incremental parser: either update itself panics
         # or it leaves a tree that does not fit the tokens (both exactly as the model of the pinned algorithm predicts) and a
         # handler then indexes out of bounds.  It counts as known only if the SAME final text, opened freshly, answers everything.
-        if r.get("after_edits") and judge and known_listed:
-            line = c01.hist_line(job[0], [[e] for e in job[1]])
+        byte_edits = job[1]
+        if r.get("after_raw_edit") and len(job) > 5 and not job[1]:
+            # edits given as LSP positions (inside surrogate pairs): the byte changes the server derives from them
+            byte_edits, final = raw_to_byte_edits(job[0], job[5], r.get("raw_edit"))
+            if byte_edits is None or (r.get("text") is not None and final != r.get("text")):
+                byte_edits = None
+        if (r.get("after_edits") or (r.get("after_raw_edit") and byte_edits)) and judge and known_listed:
+            line = c01.hist_line(job[0], [[e] for e in byte_edits])
             a = common.run_lines(os.path.join(bindir, "dump_hist"), [line])[0]
             b = common.run_lines(judge, [line])[0]
             st, _ = c01.judge_history(c01.parse_impl(a), c01.parse_model(b))
             if st == "known":
                 cur = job[0]
-                for cs, ce, ins in job[1]:
+                for cs, ce, ins in byte_edits:
                     cur = editgen.apply_change(cur, cs, ce, ins)
                 fresh = session(exe, cur, [], job[2], timeout=40.0)
                 if fresh.get("ok"):
